@@ -5,7 +5,7 @@ import decimal
 D = decimal.Decimal
 
 RES_NAMES = ['a', 'ab', 'abc', 'a.b', 'axb', 'a-b', 'b', 'a_b']
-FIELD_NAMES_META = ['a', 'ab', 'abc', 'a.b', 'axb', 'a+', '(x)', 'a|b', 'x[0]', '$v', 'b', 'c d', 'é']
+FIELD_NAMES_META = ['a', 'ab', 'abc', 'a.b', 'axb', 'a+', '(x)', 'a|b', 'x[0]', '$v', 'b', 'c d', 'é', 'a\n']
 FIELD_NAMES_PLAIN = ['f1', 'f2', 'f3', 'f4', 'f5', 'f6']
 
 # ---- typed value pools: {type: {class_name: [values]}} ------------------------------------
